@@ -176,7 +176,7 @@ Qed.
    on every call: the retry carries a zero-length file (the caller's contract; nothing req
    could rewind) *)
 Theorem upload_custom_plain_partial chunked param name content :
-  mp_attempts file_read detect chunked 2 0 [] [mkFile param name FCustomPlain content false] =
+  mp_attempts file_read detect chunked 2 0 ([], []) [mkFile param name FCustomPlain content false] =
   ([([PFile param name (detect (pad512 content)) content], true);
     ([PFile param name (detect (pad512 [])) []], true)], false).
 Proof. destruct chunked; reflexivity. Qed.
@@ -184,7 +184,7 @@ Proof. destruct chunked; reflexivity. Qed.
 (* SetFileReader as pinned: the drained reader is uploaded again as a zero-length file *)
 Theorem upload_reader_pinned_refuted param name kind content :
   kind = FSeekReader \/ kind = FPlainReader ->
-  mp_attempts file_read_pinned detect false 2 0 [] [mkFile param name kind content false] =
+  mp_attempts file_read_pinned detect false 2 0 ([], []) [mkFile param name kind content false] =
   ([([PFile param name (detect (pad512 content)) content], true);
     ([PFile param name (detect (pad512 [])) []], true)], false).
 Proof. intros [-> | ->]; reflexivity. Qed.
@@ -192,7 +192,7 @@ Proof. intros [-> | ->]; reflexivity. Qed.
 End UploadProofs.
 
 Example upload_attempts_identical_nonvacuous :
-  mp_attempts file_read (fun _ => bs "application/octet-stream") true 3 0 [(bs "f", [bs "1"])]
+  mp_attempts file_read (fun _ => bs "application/octet-stream") true 3 0 ([], [(bs "f", [bs "1"])])
     [mkFile (bs "file") (bs "a.txt") FPath (bs "hello") false;
      mkFile (bs "doc") (bs "b.bin") FCustomSeek (bs "b") false] =
   (repeat ([PField (bs "f") (bs "1");
